@@ -1245,7 +1245,7 @@ def run(ctx):
     run_excluded(ctx, r)
     run_rejections(ctx, r)
     t2_resolve(ctx, r)
-    for a in range(ctx.n(16, 170)):
+    for a in range(ctx.n(16, 230)):
         run_spec(ctx, r, gen_spec(r, a), f"api{a}")
 
 
